@@ -1412,6 +1412,34 @@ fn parse_vars(exprs: &[&Vec<SExpr>], _lsp_hints: &mut LspHints) -> Result<HashMa
             if vars.insert(var_name.into(), var_expr).is_some() {
                 bail_expr!(var_name_expr, "duplicate variable name: {}", var_name);
             }
+            // A variable that refers to itself, directly or through other variables, makes the
+            // recursive resolution of variables recurse without end when the variable is used.
+            let mut pending = vec![var_name.as_str()];
+            let mut visited: HashSet<&str> = HashSet::default();
+            while let Some(name) = pending.pop() {
+                let mut values = vec![&vars[name]];
+                while let Some(value) = values.pop() {
+                    match value {
+                        SExpr::List(l) => values.extend(l.t.iter()),
+                        SExpr::Atom(a) => {
+                            let referenced =
+                                a.t.strip_prefix('$').and_then(|v| vars.get_key_value(v));
+                            if let Some((referenced, _)) = referenced {
+                                if referenced == var_name {
+                                    bail_expr!(
+                                        var_name_expr,
+                                        "variable {} is defined in terms of itself",
+                                        var_name
+                                    );
+                                }
+                                if visited.insert(referenced) {
+                                    pending.push(referenced);
+                                }
+                            }
+                        }
+                    }
+                }
+            }
         }
     }
     Ok(vars)
